@@ -210,13 +210,14 @@ Definition kind_CountSetExprNode : kdesc := {|
   k_name := "CountSetExprNode"; k_ptr := true; k_file := "node_set.go";
   k_strs := [];
   k_children := [
-    {| cf_name := "symbol"; cf_shape := FSingle; cf_type := "SymbolNode"; cf_hidden := false; cf_nilable := true |};
+    {| cf_name := "symbol"; cf_shape := FSingle; cf_type := "SymbolNode"; cf_hidden := false; cf_nilable := false |};
     {| cf_name := "query"; cf_shape := FSingle; cf_type := "Query"; cf_hidden := false; cf_nilable := true |} ];
   k_symbol := SymVia "symbol";
   k_recv_guard := false;
   k_accept := [
     ACallback "VisitCountSetExprNodeStart";
-    AUnknown "acceptSetExpr(visitor, node.symbol, node.query)";
+    AAccept "symbol";
+    AAcceptIfNonNil "query";
     ACallback "VisitCountSetExprNodeEnd" ];
   k_unsupported := [] |}.
 
@@ -465,13 +466,14 @@ Definition kind_IsEmptySetExprNode : kdesc := {|
   k_name := "IsEmptySetExprNode"; k_ptr := true; k_file := "node_set.go";
   k_strs := [];
   k_children := [
-    {| cf_name := "symbol"; cf_shape := FSingle; cf_type := "SymbolNode"; cf_hidden := false; cf_nilable := true |};
+    {| cf_name := "symbol"; cf_shape := FSingle; cf_type := "SymbolNode"; cf_hidden := false; cf_nilable := false |};
     {| cf_name := "query"; cf_shape := FSingle; cf_type := "Query"; cf_hidden := false; cf_nilable := true |} ];
   k_symbol := SymVia "symbol";
   k_recv_guard := false;
   k_accept := [
     ACallback "VisitIsEmptySetExprNodeStart";
-    AUnknown "acceptSetExpr(visitor, node.symbol, node.query)";
+    AAccept "symbol";
+    AAcceptIfNonNil "query";
     ACallback "VisitIsEmptySetExprNodeEnd" ];
   k_unsupported := [] |}.
 
